@@ -136,13 +136,15 @@ func c07Sum(b []byte) uint64 {
 // ---------------------------------------------------------------- scripted net.Conn
 
 type c07Obs struct {
-	code, tkl   int
-	tcs         uint64
-	plen        int
-	pcs         uint64
+	code, tkl int
+	tcs       uint64
+	plen      int
+	pcs       uint64
 }
 
-func (o c07Obs) coq() string { return fmt.Sprintf("Ob %d %d %d %d %d", o.code, o.tkl, o.tcs, o.plen, o.pcs) }
+func (o c07Obs) coq() string {
+	return fmt.Sprintf("Ob %d %d %d %d %d", o.code, o.tkl, o.tcs, o.plen, o.pcs)
+}
 
 type c07Logs struct {
 	mu     sync.Mutex
@@ -179,19 +181,19 @@ func (c07Addr) Network() string { return "script" }
 func (c07Addr) String() string  { return "script" }
 
 type c07Conn struct {
-	mu      sync.Mutex
-	data    []byte
-	pos     int
-	chunks  []int
-	ci      int
-	cache   int
-	reads   int
-	bytes   int
-	badReq  int
-	writes  int
-	closed  chan struct{}
-	once    sync.Once
-	atEnd   func()
+	mu     sync.Mutex
+	data   []byte
+	pos    int
+	chunks []int
+	ci     int
+	cache  int
+	reads  int
+	bytes  int
+	badReq int
+	writes int
+	closed chan struct{}
+	once   sync.Once
+	atEnd  func()
 }
 
 func (c *c07Conn) Read(p []byte) (int, error) {
@@ -851,7 +853,7 @@ func runC07(a runArgs) error {
 	// fixed corpus: the uint32 wrap witnesses (F16) and boundary headers, each followed by valid frames
 	follow := []c07Item{{code: 69, tok: []byte{1, 2}, psalt: 3, plen: 5}, {code: 226}, {code: 1, tok: []byte{9}, opts: []c07Opt{{11, []byte("x")}}}}
 	fixed := [][]byte{
-		append([]byte{0xf0}, append(be32(0xfffefef3), 0x45)...),       // declares 4 GiB, wraps to an empty 6-byte message
+		append([]byte{0xf0}, append(be32(0xfffefef3), 0x45)...),         // declares 4 GiB, wraps to an empty 6-byte message
 		append([]byte{0xf1}, append(be32(0xfffefef3+5), 0x02, 0xaa)...), // wraps to a 5-byte body
 		append([]byte{0xf0}, append(be32(0xffffffff), 0x01)...),
 		append([]byte{0xf0}, append(be32(0x7fff0000), 0x01)...),
